@@ -131,11 +131,18 @@ def check_one(case):
             fail("written-form-differs", "%r vs %r" % (str(c), before_l))
         if not (c == l):
             fail("clone-not-equal", "%r" % before_l)
+        # both copies are read first (at level 0 this is when the delayed fields are parsed), then only the clone is edited
+        vals = []
         for k in list(c._data.keys()):
-            v = c.get(k) if not isinstance(c._data[k], str) or vlevel > 0 else c._data[k]
-            if isinstance(v, str):
-                continue
-            nmut += mutate(v)
+            try:
+                l.get(k)
+                vals.append(c.get(k))
+            except gfapy.Error:
+                pass
+        before_l = str(l); before_g = str(g)
+        for v in vals:
+            if not isinstance(v, str):
+                nmut += mutate(v)
         if str(l) != before_l:
             fail("edit-of-clone-changes-original", "%r -> %r" % (before_l, str(l)))
         if str(g) != before_g:
@@ -165,10 +172,16 @@ def check_one(case):
         g2 = gfapy.Gfa(lines, vlevel=vlevel)
         l2 = (state.registered(g2) + [g2.header])[idx]
         c2 = l2.clone()
+        vals2 = []
+        for k in list(l2._data.keys()):
+            try:
+                c2.get(k)
+                vals2.append((k, l2.get(k)))
+            except gfapy.Error:
+                pass
         s2 = str(c2)
-        for k in l2.tagnames:
-            v = l2.get(k)
-            if not isinstance(v, str):
+        for k, v in vals2:
+            if not isinstance(v, str) and (k in l2.tagnames or not l2.is_connected()):
                 nmut += mutate(v)
         if str(c2) != s2:
             fail("edit-of-original-changes-clone", "%r -> %r" % (s2, str(c2)))
